@@ -18,7 +18,7 @@ import (
 	"mellium.im/xmpp/verifharness/stall"
 )
 
-var forcedList = []string{"F1", "F2", "F3", "F4", "F5", "F6", "F7", "R1", "R2", "R3", "B1", "B2", "B3", "B4", "B5", "B6", "E1", "E2", "E3"}
+var forcedList = []string{"F1", "F2", "F3", "F4", "F5", "F6", "F7", "R1", "R2", "R3", "B1", "B2", "B3", "B4", "B5", "B6", "E1", "E2", "E3", "H1", "H2", "H3", "H4", "H5", "H6", "H7", "H8"}
 
 type freq struct {
 	rq, id string
@@ -347,6 +347,40 @@ func runForced(c *core.Case, id string) {
 		// manual trigger here: nothing is cancelled)
 		close(f.pl.cancelled)
 		finish(f)
+	case "H1", "H2", "H3", "H4", "H5", "H6", "H7", "H8":
+		// the caller's context ends exactly at the hand-over: the cancellation
+		// runs on the serve loop's goroutine right after the response was given
+		// to the requester, before the requester has taken a single step with
+		// it.  Whatever the call returns, the response must be disposed of: the
+		// serve loop goes on (several rounds: the requester may win the race)
+		via := []string{"SendIQ", "SendIQElement", "EncodeIQ", "EncodeIQElement", "UnmarshalIQ", "UnmarshalIQElement", "IterIQ", "IterIQElement"}[int(id[1]-'1')]
+		var fs []*freq
+		for round := 0; round < 4; round++ {
+			rq := fmt.Sprintf("f%d", round)
+			var f *freq
+			ready := make(chan struct{})
+			r := ct.Do("serve.handoff", "id-"+rq, func() {
+				<-ready
+				w.cancelReq(f)
+			})
+			f = w.startReq(rq, via, newPlan("iq", replySpec{"result", "now"}), nil)
+			close(ready)
+			if !stall.WaitDone(f.done, wait) {
+				break // decided by settle: the requester or the serve loop is stuck
+			}
+			select {
+			case <-r.Arrived():
+				c.Count("yield:serve.handoff", 1)
+				c.Count("cancellations_placed_at_the_hand_over", 1)
+			default:
+			}
+			fs = append(fs, f)
+			if !w.sync(10 + round) {
+				break
+			}
+		}
+		smp.Kind = id + "/" + via
+		finish(fs...)
 	case "E1", "E2", "E3":
 		// the request itself fails while it is being transmitted (its payload
 		// reader or marshaller fails after the first tokens) under a context
